@@ -99,6 +99,7 @@ type Result struct {
 	Partial       bool           `json:"partial,omitempty"`
 	Trace         *Trace         `json:"trace,omitempty"`
 	YieldResume   *yrRow         `json:"yield_resume,omitempty"`
+	CancelStalled *csRow         `json:"cancel_stalled,omitempty"`
 }
 
 type itemState int
@@ -269,6 +270,7 @@ type runner struct {
 	orcLog          []string
 	partial         func(*Result)
 	yr              *yrRow
+	cs              *csRow
 }
 
 func (r *runner) now() time.Duration { return time.Since(r.t0) }
@@ -350,7 +352,7 @@ func (r *runner) result(partial bool) *Result {
 	defer r.mu.Unlock()
 	res := &Result{ID: r.h.ID, Prop: r.h.Prop, Hash: r.h.contentHash(), Pass: len(r.fails) == 0,
 		Failures: append([]Failure{}, r.fails...), Nontrivial: r.nontrivial, ExceptionUsed: r.excUsed,
-		StalledFull: len(r.fullEver), OpsByKind: r.opsByKind, Skipped: r.skipped, Partial: partial, YieldResume: r.yr}
+		StalledFull: len(r.fullEver), OpsByKind: r.opsByKind, Skipped: r.skipped, Partial: partial, YieldResume: r.yr, CancelStalled: r.cs}
 	for w := range r.why {
 		res.Why = append(res.Why, w)
 	}
